@@ -10,8 +10,11 @@ from typing import Any, Dict, List, Optional, Set, Tuple
 from ..core import Ctx
 from ..program import AnalysisError, FuncInfo, Program, NO
 from ..effects import get_effects
+from ..interp import Interp, LoopSummary, View, as_view
+from ..terms import Aff, K, ONE, cmp_cond, show_val
 
 SIGNS = frozenset({"neg", "zero", "pos"})
+_SELECTORS = {"maximum", "minimum", "fmax", "fmin", "where", "abs", "absolute", "sign", "clip", "select", "max", "min"}
 # propagators whose declared triggers are narrower than MIN|MAX on the pinned tree (dependences derived and checked on every run)
 KNOWN_NARROW = {"compute_domains_max_leq", "compute_domains_min_geq", "compute_domains_affine_leq", "compute_domains_affine_geq", "compute_domains_no_sub_cycle"}
 
@@ -274,6 +277,7 @@ class DepAnalysis:
         self.row_loops: Dict[str, str] = {}  # index var -> class
         self.elem_loops: Dict[str, str] = {}  # element var (for x_i in x) -> class
         self.inlined: Set[str] = set()
+        self.selectors: List[int] = []  # lines where a min/max/abs/where-like call mixes both bounds of one class of variables
 
     # -- helpers
     def bound_of(self, e: ast.expr) -> Optional[str]:
@@ -395,6 +399,20 @@ class DepAnalysis:
                     return {(c, b, (sg - {"zero"}) if c == "COEF" else sg, row) for c, b, sg, row in inner}
         if isinstance(e, ast.Call) and isinstance(e.func, ast.Name) and e.func.id == "len":
             return out  # the length of a view is not a bound
+        if isinstance(e, ast.Call):
+            fname = ast.unparse(e.func)
+            if fname.split(".")[-1] in _SELECTORS and (fname.split(".")[-1] not in ("max", "min") or "." not in fname and len(e.args) >= 2):
+                inner: Set[Dep] = set()
+                for a_ in e.args:
+                    inner |= self.reads(a_, signs, ground_rows)
+                by_cls: Dict[str, Set[str]] = {}
+                for c_, b_, _, _ in inner:
+                    by_cls.setdefault(c_, set()).add(b_)
+                if signs == SIGNS and any({"MIN", "MAX"} <= bs for bs in by_cls.values()):  # (inside a branch on a coefficient's sign the dependence is exact)
+                    # which of the two bounds of a variable the result follows is decided by run-time values (a sign, a comparison) that
+                    # this dependence analysis does not follow: any 'missing event' derived from it would be a may-dependence only
+                    self.selectors.append(getattr(e, "lineno", 0))
+                return inner
         if isinstance(e, ast.Call) and isinstance(e.func, ast.Name):
             r = self.prog.resolve(self.fn.module, e.func.id)
             if r and r[0] == "func":
@@ -591,6 +609,10 @@ def rule_triggers(ctx: Ctx, prog: Program) -> None:
                             bad.append(f"{desc} (line {line}) depends on the {b} of {_cls_name(cls)}"
                                        + (f" when its coefficient is {_sg(sg)}" if cls == "COEF" else "")
                                        + f", but {t.name} gives {where} the mask {mm}")
+        if bad and da.selectors:
+            raise AnalysisError(f"{c.name}: its triggers are narrower than MIN|MAX but its bound dependences can no longer be derived exactly: at line "
+                                f"{da.selectors[0]} a min/max/abs/where-like call selects between the two bounds of a variable by run-time values "
+                                f"(derived may-dependence: {bad[0]})")
         if bad:
             ctx.violation("R-TRIGGERS", t.path, t.name, f"insufficient:{c.name}", t.loc(),
                           f"wake-up events of {c.name} are not sufficient: {bad[0]}" + (f" (+{len(set(bad)) - 1} more)" if len(set(bad)) > 1 else ""))
@@ -811,3 +833,241 @@ def rule_mirror_entail(ctx: Ctx, prog: Program) -> None:
                           f"(= {gb} after mirroring MIN<->MAX, min<->max, <= <-> >=): the two are the same constraint up to negation of the values, "
                           "so one of the guards declares entailment on boxes that still contain violating tuples (or never declares it)")
     ctx.floor("R-MIRROR-ENTAIL:pairs", n, 1)
+
+
+# ------------------------------------------------------------------------------------------ R-ENTAIL-GUARD
+def _loops_in(trace) -> List[LoopSummary]:
+    out: List[LoopSummary] = []
+
+    def rec(evs):
+        for e in evs:
+            if e.kind in ("loop", "iter") and e.loop is not None and e.loop not in out:
+                out.append(e.loop)
+                for bp in e.loop.paths:
+                    rec(bp.events)
+    rec(trace)
+    return out
+
+
+def _cell_rows(x: Any, dom: str, acc: List[Aff]) -> None:
+    """Rows of `dom` whose cells occur (at any depth) in the abstract value / atom x."""
+    if isinstance(x, Aff):
+        for a in x.atoms():
+            _cell_rows(a, dom, acc)
+    elif isinstance(x, tuple):
+        if len(x) >= 3 and x[0] in ("init", "hav"):
+            root, idx = (x[1], x[2]) if x[0] == "init" else (x[2], x[3]) if len(x) >= 4 else (None, ())
+            if root == dom and isinstance(idx, tuple) and len(idx) == 2 and isinstance(idx[0], Aff) and idx[0].is_const():
+                if idx[0] not in acc:
+                    acc.append(idx[0])
+                return
+        for y in x:
+            _cell_rows(y, dom, acc)
+
+
+def _store_may_hit_row(st: Any, e: Any, dom: str, row: Aff) -> bool:
+    """May the store event e (into `dom`) write a cell of the given constant row?"""
+    if not e.idx or not isinstance(e.idx[0], Aff):
+        return True
+    r0 = e.idx[0]
+    if r0.is_const():
+        if r0.c == row.c:
+            return True
+        return (r0.c < 0) != (row.c < 0)  # one counted from the end, the other from the start: not decided here
+    # a symbolic row reached through a view that excludes the tail of the array (x = dom[:-k]; x[j] = ...) never is one of the last k rows
+    tgt = e.node.targets[0] if isinstance(e.node, ast.Assign) and len(e.node.targets) == 1 else getattr(e.node, "target", None)
+    while isinstance(tgt, ast.Subscript) and not isinstance(tgt.value, ast.Name):
+        tgt = tgt.value
+    if isinstance(tgt, ast.Subscript) and isinstance(tgt.value, ast.Name):
+        v = st.env.get(tgt.value.id)
+        if isinstance(v, View) and v.root == dom and len(v.idx) == 1 and isinstance(v.idx[0], tuple) and v.idx[0][0] == "slice":
+            hi = v.idx[0][2]
+            if isinstance(hi, Aff) and hi.is_const() and hi.c < 0 and row.c < 0 and row.c >= hi.c:
+                return False
+    return True
+
+
+def _ground_at_some_point(it: Interp, r: Any, dom: str, row: Aff, MIN: int, MAX: int) -> bool:
+    """The path establishes that row `row` of `dom` is a single value at some point after which nothing writes that row."""
+    st = r.state
+    evs = st.trace
+    last_hit = 0
+    for e in evs:
+        if e.kind == "store" and e.root == dom and _store_may_hit_row(st, e, dom, row):
+            last_hit = max(last_hit, e.hpos + 1)
+    seen = set()
+    for pos in [len(st.heap)] + sorted({e.hpos for e in evs if e.hpos >= last_hit}, reverse=True):
+        if pos in seen or pos < last_hit:
+            continue
+        seen.add(pos)
+        lo = it.scalar(st, it.load_at(st, pos, dom, (row, K(MIN))))
+        hi = it.scalar(st, it.load_at(st, pos, dom, (row, K(MAX))))
+        if isinstance(lo, Aff) and isinstance(hi, Aff) and st.facts.decide(cmp_cond("==", lo, hi)) is True:
+            return True
+    return False
+
+
+def rule_entail_guard(ctx: Ctx, prog: Program) -> None:
+    """Three families of sibling filtering functions answer 'entailed' under the same kind of condition; the condition is read off the
+    siblings and demanded of every 'entailed' path of every member (as an entailment of the path's facts, so an equivalent rewriting of the
+    test is accepted and a weakened one -- a further disjunct -- is not):
+      index family   (a scan `for idx in range(<cells of ONE row of the domains>)`, the element constraints): the box can only be entirely
+                     inside the relation l[i] = v when the index variable is instantiated -- its stored MIN equals its stored MAX at the return;
+      counter family (a scan that counts down the variables that cannot take the value and counts up those that must, count_eq / exactly_*):
+                     the count is decided only when no variable is left undecided -- the two counters are equal at the return;
+      table family   (a loop-carried array filtered from the parameters, the relation constraint): the bounding box of the remaining rows is
+                     the relation only when one row is left -- its length is 1 at the return.
+    Filtering functions outside the three families are not concerned (the inequality families are the business of R-ENFORCE-ENTAIL /
+    R-MIRROR-ENTAIL)."""
+    ctx.rule("R-ENTAIL-GUARD")
+    PE = prog.C("PROP_ENTAILMENT")
+    MIN, MAX = prog.C("MIN"), prog.C("MAX")
+    n_fam = {"index": 0, "counter": 0, "table": 0}
+    for _, fn, _ in propagator_triples(prog):
+        # only the filtering functions that name PROP_ENTAILMENT in their own body are concerned (the others are not interpreted here)
+        if not any(isinstance(n, ast.Name) and n.id == "PROP_ENTAILMENT" for n in ast.walk(fn.node)):
+            continue
+        it = Interp(prog)
+        try:
+            res = it.run(fn)
+        except AnalysisError:
+            continue
+        ent = [r for r in res if r.outcome == "return" and isinstance(it.scalar(r.state, r.value), Aff) and it.scalar(r.state, r.value) == K(PE)]
+        if not ent:
+            continue
+        dom = fn.params[0]
+        loops: List[LoopSummary] = []
+        for r in res:
+            for l in _loops_in(r.state.trace):
+                if l not in loops and l.fn == fn.fq:
+                    loops.append(l)
+        # ---- family detection
+        rows: List[Aff] = []
+        for l in loops:
+            rv = l.iter_value
+            if l.kind == "for" and rv.__class__.__name__ == "RangeVal":
+                _cell_rows(rv.start, dom, rows)
+                _cell_rows(rv.stop, dom, rows)
+        counters: Optional[Tuple[str, str]] = None
+        for node in ast.walk(fn.node):
+            if isinstance(node, ast.For):
+                ups = {n.target.id for n in ast.walk(node) if isinstance(n, ast.AugAssign) and isinstance(n.op, ast.Add) and isinstance(n.target, ast.Name)
+                       and isinstance(n.value, ast.Constant) and n.value.value == 1}
+                downs = {n.target.id for n in ast.walk(node) if isinstance(n, ast.AugAssign) and isinstance(n.op, ast.Sub) and isinstance(n.target, ast.Name)
+                         and isinstance(n.value, ast.Constant) and n.value.value == 1}
+                if len(ups) == 1 and len(downs) == 1 and ups != downs and counters is None:
+                    counters = (next(iter(ups)), next(iter(downs)))
+        tables: List[str] = []
+        for l in loops:
+            for nm in l.assigned:
+                pv = as_view(l.pre_env.get(nm))
+                if isinstance(pv, View) and pv.root != dom and not pv.root.startswith(dom) and nm not in tables and nm not in fn.params:
+                    tables.append(nm)
+        fam = "index" if len(rows) == 1 else "counter" if counters else "table" if len(tables) == 1 else None
+        if fam is None:
+            ctx.undecided_site("R-ENTAIL-GUARD", fn.name, "answers 'entailed' but belongs to none of the index / counter / table families")
+            continue
+        ctx.fn(fn.fq)
+        n_fam[fam] += 1
+        bad_line = None
+        for r in ent:
+            st = r.state
+            f = st.facts
+            if fam == "index":
+                okk = _ground_at_some_point(it, r, dom, rows[0], MIN, MAX)
+            elif fam == "counter":
+                a, b = counters  # type: ignore[misc]
+                okk = a in st.env and b in st.env and f.decide(cmp_cond("==", it.scalar(st, st.env[a]), it.scalar(st, st.env[b]))) is True
+            else:
+                x = st.env.get(tables[0])
+                okk = x is not None and f.decide(cmp_cond("<=", it.len_of(x, st), ONE)) is True
+            if not okk:
+                bad_line = next((e.line for e in reversed(r.events) if e.kind == "return"), fn.node.lineno)
+                break
+        what = {"index": f"the index variable (row {show_val(rows[0]) if rows else '?'} of the domains, whose bounds drive the scan) is instantiated",
+                "counter": f"the two counters of the scan ({counters[0] if counters else '?'} counted up, {counters[1] if counters else '?'} counted down) are equal, i.e. no variable is left undecided",
+                "table": f"one row of the filtered table `{tables[0] if tables else '?'}` is left"}[fam]
+        if bad_line is None:
+            ctx.ok("R-ENTAIL-GUARD", f"{fn.name} ({fam} family): every 'entailed' path entails that {what}", sample={"entailed_paths": len(ent)})
+        else:
+            ctx.violation("R-ENTAIL-GUARD", fn.path, fn.name, f"entailed-without:{fam}", f"{fn.path}:{bad_line}",
+                          f"{fn.name} has a path that answers PROP_ENTAILMENT on which it is not established that {what}: the returned box can then "
+                          "still contain tuples that violate the constraint, the engine disables the constraint for the whole subtree and those "
+                          "tuples are accepted as solutions")
+    ctx.floor("R-ENTAIL-GUARD:index-family", n_fam["index"], 3)
+    ctx.floor("R-ENTAIL-GUARD:counter-family", n_fam["counter"], 3)
+    ctx.floor("R-ENTAIL-GUARD:table-family", n_fam["table"], 1)
+
+
+# ------------------------------------------------------------------------------------------ R-VECTOR-WIDTH
+def rule_vector_width(ctx: Ctx, prog: Program) -> None:
+    """The domains and parameters handed to a filtering function are 32-bit arrays.  Scalar arithmetic on their elements is carried out in
+    64 bits by compiled code (and the results are compared / clipped before they are stored), but an element-wise operation between two
+    such arrays stays in 32 bits and wraps: a sum of products like coefficients * domains[:, MAX] is then wrong as soon as one product
+    reaches 2**31, the entailment / failure tests and the pruning formulas are fed wrapped values.  Rule: in a registered filtering
+    function (and the helpers of its module) no +, -, * between two expressions that are both 32-bit array views of the arguments (an
+    operand widened with .astype(np.int64) / np.int64(...) is fine)."""
+    ctx.rule("R-VECTOR-WIDTH")
+    n_fn = n_bad = 0
+    seen: Set[str] = set()
+    work: List[FuncInfo] = [c for _, c, _ in propagator_triples(prog)]
+    while work:
+        fn = work.pop()
+        if fn.fq in seen:
+            continue
+        seen.add(fn.fq)
+        n_fn += 1
+        for node in ast.walk(fn.node):
+            if isinstance(node, ast.Call) and isinstance(node.func, ast.Name):
+                r = prog.resolve(fn.module, node.func.id)
+                if r and r[0] == "func" and r[1].module == fn.module:
+                    work.append(r[1])
+        # abstract "32-bit array of the arguments, n dimensions" per local name (flow-insensitive: any binding counts)
+        dims: Dict[str, int] = {}
+        if len(fn.params) >= 2 and fn.name.startswith("compute_domains"):
+            dims[fn.params[0]] = 2
+            dims[fn.params[1]] = 1
+        else:
+            continue
+
+        def nd(e: ast.expr) -> int:
+            """number of dimensions of a 32-bit array view, 0 = scalar / unknown / widened"""
+            if isinstance(e, ast.Name):
+                return dims.get(e.id, 0)
+            if isinstance(e, ast.Subscript):
+                b = nd(e.value)
+                if b == 0:
+                    return 0
+                idx = e.slice.elts if isinstance(e.slice, ast.Tuple) else [e.slice]
+                drop = sum(1 for i in idx if not isinstance(i, ast.Slice))
+                return max(0, b - drop)
+            if isinstance(e, ast.BinOp) and isinstance(e.op, (ast.Add, ast.Sub, ast.Mult)):
+                return max(nd(e.left), nd(e.right)) if nd(e.left) and nd(e.right) else 0
+            if isinstance(e, ast.UnaryOp):
+                return nd(e.operand)
+            if isinstance(e, ast.Call):
+                f = ast.unparse(e.func)
+                if f in ("np.copy", "numpy.copy", "np.maximum", "np.minimum") and e.args:
+                    return max(nd(a) for a in e.args)
+                if isinstance(e.func, ast.Attribute) and e.func.attr == "copy":
+                    return nd(e.func.value)
+                return 0  # astype / np.int64 / reductions / anything else: not a 32-bit view any more (or a scalar)
+            return 0
+
+        for _ in range(3):
+            for node in ast.walk(fn.node):
+                if isinstance(node, ast.Assign) and len(node.targets) == 1 and isinstance(node.targets[0], ast.Name):
+                    k = nd(node.value)
+                    if k:
+                        dims[node.targets[0].id] = max(dims.get(node.targets[0].id, 0), k)
+        for node in ast.walk(fn.node):
+            if isinstance(node, ast.BinOp) and isinstance(node.op, (ast.Add, ast.Sub, ast.Mult)) and nd(node.left) and nd(node.right):
+                n_bad += 1
+                ctx.violation("R-VECTOR-WIDTH", fn.path, fn.name, f"int32-elementwise:{type(node.op).__name__}", f"{fn.path}:{node.lineno}",
+                              f"`{ast.unparse(node)[:90]}` in {fn.name} is an element-wise operation between two 32-bit array views of the arguments: it is "
+                              "carried out in 32 bits and wraps (the scalar arithmetic it stands for is 64-bit in compiled code), so for large "
+                              "coefficients or bounds the entailment and failure tests and the pruning formulas are fed wrapped values "
+                              "(e.g. 70000 * x with x around 30675)")
+    if not n_bad:
+        ctx.ok("R-VECTOR-WIDTH", "no element-wise +, -, * between two 32-bit array views of the arguments in any filtering function", sample={"functions": n_fn})
+    ctx.floor("R-VECTOR-WIDTH:filtering-functions", n_fn, 25)
